@@ -393,10 +393,19 @@ func ruleNoGuardedAlias(c *Ctx, rule string) {
 											base = base[:k]
 										}
 										switch base {
-										case "maps.Values", "maps.Keys", "maps.All", "slices.Values", "slices.All":
+										case "maps.Values", "maps.Keys", "maps.All", "slices.Values", "slices.All", "slices.Backward":
 											drained := call.Referrers() != nil && len(*call.Referrers()) > 0
 											for _, r2 := range *call.Referrers() {
 												c2, ok2 := r2.(*ssa.Call)
+												// ranged over on the spot: `for … := range it` calls the iterator
+												// with the loop body
+												if ok2 && c2.Call.Value == ssa.Value(call) && len(c2.Call.Args) == 1 {
+													if mc, isMC := c2.Call.Args[0].(*ssa.MakeClosure); isMC {
+														if yf, _ := mc.Fn.(*ssa.Function); yf != nil && yf.Synthetic == "range-over-func yield" {
+															continue
+														}
+													}
+												}
 												if !ok2 || c2.Call.StaticCallee() == nil {
 													if _, isDbg := r2.(*ssa.DebugRef); isDbg {
 														continue
